@@ -374,6 +374,11 @@ func r204SharedTypes(c *an.Ctx) {
 			if st.mountTime[method] {
 				continue
 			}
+			// a helper extracted from a mount-time method (new since the reference tree, called by
+			// mount-time methods only) runs at mount time too
+			if c.IsNewFunc(f) && calledOnlyFrom(c, st.dir, f, st.dir+"."+st.typ+".", st.mountTime) {
+				continue
+			}
 			sf := c.SSAFunc(f)
 			if sf == nil || len(sf.Params) == 0 {
 				continue
@@ -717,14 +722,25 @@ func r207RangeAll(c *an.Ctx, rule string) {
 				if !ok || an.CalleeName(info, call) != "(*sync.Map).Range" || len(call.Args) != 1 {
 					return true
 				}
-				lit, ok := call.Args[0].(*ast.FuncLit)
-				if !ok {
+				// the callback: a function literal (possibly named by a local) or a declared function
+				var body *ast.BlockStmt
+				cinfo := info
+				switch cb := an.Unparen(an.ResolveLocal(info, f.Decl.Body, call.Args[0])).(type) {
+				case *ast.FuncLit:
+					body = cb.Body
+				default:
+					if h := c.FuncOfObj(an.ObjOf(info, selName(call.Args[0]))); h != nil {
+						body, cinfo = h.Decl.Body, h.Pkg.TypesInfo
+					}
+				}
+				if body == nil {
 					return true
 				}
+				info := cinfo
 				n++
 				construct := fmt.Sprintf("%s#Range", f.Name)
 				bad := ""
-				an.WalkNoFuncLit(lit.Body, func(m ast.Node) bool {
+				an.WalkNoFuncLit(body, func(m ast.Node) bool {
 					if rs, ok := m.(*ast.ReturnStmt); ok && len(rs.Results) == 1 {
 						if v, isConst := an.ConstBool(info, rs.Results[0]); !isConst || !v {
 							bad = an.Src(c.Fset, rs)
@@ -914,4 +930,24 @@ func r209RuntimeLints(c *an.Ctx) {
 	}
 	c.Okf(rule, "runtime packages#lints", "%d functions of the runtime packages: no pooled value is used after it was returned to its pool", n)
 	c.Floor(rule, n, 200, "functions of the runtime packages")
+}
+
+// calledOnlyFrom: every call of f in package dir sits in one of the named
+// methods (prefix + name) of the type.
+func calledOnlyFrom(c *an.Ctx, dir string, f *an.Func, prefix string, names map[string]bool) bool {
+	called := false
+	for _, g := range c.AllFuncs(dir) {
+		ok := names[strings.TrimPrefix(g.Name, prefix)] && strings.HasPrefix(g.Name, prefix)
+		ast.Inspect(g.Decl.Body, func(n ast.Node) bool {
+			call, isCall := n.(*ast.CallExpr)
+			if isCall && an.Callee(g.Pkg.TypesInfo, call) == f.Obj {
+				called = true
+				if !ok {
+					names = nil
+				}
+			}
+			return true
+		})
+	}
+	return called && names != nil
 }
